@@ -57,7 +57,7 @@ def parsePlay : String → Option PlayEv
   | "sil" => some .silence
   | "gar" => some .garbage
   | "trunc" => some .truncated
-  | "stop" | "replace" => some .closedPacket
+  | "stop" | "replace" | "idle" => some .closedPacket
   | _ => none
 
 def allSome {α : Type} : List (Option α) → Option (List α)
